@@ -270,6 +270,7 @@ func runC13(c *Check) {
 		}
 		c.Req(n >= 9, "internal", "-", "callers", "call sites of the relations found", fmt.Sprintf("%d", n))
 	})
+	extraC13(c)
 }
 
 func runC14(c *Check) {
@@ -505,6 +506,7 @@ func runC14(c *Check) {
 		hl := countLoops(H)
 		c.Req(hl == 1, hn, "-", "helper:single-loop", "the helper has one counted loop", fmt.Sprintf("%d", hl))
 	})
+	extraC14(c)
 }
 
 func sameAlts(a, b *Term) bool {
